@@ -66,7 +66,7 @@ def _n(ch, lo=-100, hi=300):
 
 def _built_shape(ch):
     k = ch.choice(["Rect", "RectR", "Circle", "Ellipse", "SimpleLine", "Polyline", "Polygon", "Path"])
-    spec = {"kind": k, "nums": [_n(ch) for _ in range(10)], "pos": [abs(_n(ch)) + 0.5 for _ in range(4)], "tr": ch.choice(TRS), "fill": ch.choice(FILLS), "stroke": ch.choice(FILLS), "sw": ch.choice([None, 1, 2.5, 0.25]), "id": ch.choice([None, None, "s%d" % ch.int(1, 99)])}
+    spec = {"kind": k, "nums": [_n(ch) for _ in range(10)], "pos": [abs(_n(ch)) + 0.5 for _ in range(4)], "tr": ch.choice(TRS), "fill": ch.choice(FILLS), "stroke": ch.choice(FILLS), "sw": ch.choice([None, 1, 2.5, 0.25, 0]), "id": ch.choice([None, None, "s%d" % ch.int(1, 99), "s%d" % ch.int(1, 99), "", "0"])}
     if k == "Path":
         spec["d"] = gp.render(gp.gen_cmds(ch, ch.int(2, 6), mag=100.0, allow_zc=False, arc_zero=False), 0)
         spec["d_kw"] = ch.coin(0.4)
@@ -126,13 +126,13 @@ def generate(seed, index, tier):
         for _ in range(ch.int(1, 4)):
             k = ch.weighted([("id", 3), ("fill", 2), ("stroke", 2), ("sw", 2), ("imul", 3), ("reify", 1), ("attr", 2), ("svg_size", 2), ("svg_viewbox", 2), ("append", 1), ("clear_id", 1)])
             if k == "id":
-                touch.append(["id", ch.int(0, 20), "t%d" % ch.int(0, 999)])
+                touch.append(["id", ch.int(0, 20), ch.choice(["t%d" % ch.int(0, 999), "t%d" % ch.int(0, 999), "", "0"])])
             elif k == "clear_id":
                 touch.append(["id", ch.int(0, 20), None])
             elif k in ("fill", "stroke"):
                 touch.append([k, ch.int(0, 20), ch.choice(FILLS)])
             elif k == "sw":
-                touch.append(["sw", ch.int(0, 20), ch.choice([1.0, 0.5, 2.0, 3.25, 1])])
+                touch.append(["sw", ch.int(0, 20), ch.choice([1.0, 0.5, 2.0, 3.25, 1, 0, 0.0])])
             elif k == "imul":
                 touch.append(["imul", ch.int(0, 20), ch.choice([t for t in TRS if t])])
             elif k == "reify":
@@ -191,7 +191,7 @@ def _build_shape(se, spec):
         s.stroke = se.Color(spec["stroke"])
     if spec["sw"] is not None:
         s.stroke_width = spec["sw"]
-    if spec["id"]:
+    if spec["id"] is not None:
         s.id = spec["id"]
     return s
 
